@@ -30,7 +30,7 @@ def run(ctx):
                 "non-trivial if old chunks were overwritten, read back, a near-capacity/full-ring/tiny chunk was "
                 "stored, or an oversize write failed; distinct by SHA1 of its op lines; blackbox stream: mk SIZE / maxline N / r … / resize SIZE / dump "
                 "histories through the real blackbox target and the model (sizes around page multiples, line limits "
-                "78..4096, refused configurations, reloads, several dump moments)")
+                "4..4096, refused configurations, reloads, several dump moments)")
     ctx.trusted = ["Lean 4.33 kernel; axioms propext, Classical.choice, Quot.sound",
                    "tools/extract.py, tools/c2lean.py (constants and qb_rb_space_free/used/chunk_step from lib/ringbuffer.c)",
                    "harness/rb/rb_seq.c + differential comparison with `qb_ring` (model written by hand)",
@@ -44,26 +44,29 @@ def run(ctx):
                        "qb_log_blackbox_open, _blackbox_reload, the SIZE / MAX_LINE_LEN configuration, "
                        "qb_log_blackbox_write_to_file) tied by a byte-for-byte comparison of the dump files of generated "
                        "histories (scripted clock); theorems bb_log_refines_reserve_commit, bb_history, "
-                       "bb_dump_latest_run_partial for a fixed configuration per history with max_line_length >= 78 "
-                       "(below that: defect D32, fixes/D32-…; generated only with C11_D32=1) and reservations <= size; "
+                       "bb_dump_latest_run_partial for a fixed configuration per history (line limits 4..4096, "
+                       "also below the 78 bytes of the 'too long' text: defect D32, repaired) and reservations <= size; "
                        "qb_log_blackbox_print_from_file is the real printer (its model is C15's), the python oracle "
                        "evaluates the blackbox sentence on its output; the fit bound counts each record with its "
                        "reservation (33 + function name + 1 + max_line_length)",
-                       "messages of 512..max_line_length bytes with max_line_length > 512 are kept out of the "
-                       "generated stream (finding D33: stored, but rejected by the printer as corrupt)"]
+                       "messages of 512..max_line_length bytes with max_line_length > 512 are generated (defect D33, "
+                       "repaired: the logger stores at most QB_LOG_MAX_LEN bytes of message)"]
     vlib.lean_prepare(ctx)
     ctx.compile_lib(sources=LIB)
     exe = ctx.compile_harness("rb/rb_seq.c")
     # blackbox clause: the real blackbox target, dump and printer (C15's harness + the ops maxline / resize)
     # against the compiled model of the blackbox layer (Model/Blackbox.lean, driver qb_blackbox)
     bbexe = ctx.compile_harness("log/bb_print.c", extra=["-Wl,--wrap=qb_vsnprintf_deserialize"])
-    # C11_D32=1: for a tree with fixes/D32-blackbox-too-long-bound.patch applied (model of the repaired
-    # _blackbox_vlogger, generator includes max_line_length < 78)
-    d32 = bool(os.environ.get("C11_D32"))
-    margs = ["--page", str(os.sysconf("SC_PAGESIZE"))] + (["--d32"] if d32 else [])
+    # C11_PRE_D32=1: for a tree WITHOUT the repair of defect D32 (/repo 262ac0b): model of the old
+    # _blackbox_vlogger, generator without max_line_length < 78
+    d32 = not os.environ.get("C11_PRE_D32")
+    # C11_D33=1: for a tree with fixes/D33-blackbox-message-limit.patch applied (model of the repaired logger,
+    # generator includes messages of >= 512 bytes under line limits > 512, corpus/C11/pending-d33 is run)
+    d33 = not bool(os.environ.get("C11_PRE_D33"))     # D33 is repaired in /repo (C11_PRE_D33=1: the tree before the repair)
+    margs = ["--page", str(os.sysconf("SC_PAGESIZE"))] + ([] if d32 else ["--pre-d32"]) + (["--d33"] if d33 else [])
 
     def bb_oracle(ops, out):
-        return bbgen.oracle(ops, out, d32=d32)
+        return bbgen.oracle(ops, out, d32=d32, d33=d33)
 
     def bb_stream(cases, name):
         return vlib.differential(ctx, bbexe, "blackbox", cases, bb_oracle, name, compare=bbgen.compare, batch=10,
@@ -87,7 +90,7 @@ def run(ctx):
     # python oracle evaluates the blackbox sentence of C11 on the printed records
     nb = ctx.scale(60, 600)
     bbcases = [("b%d" % i, rowgen.gen_bb_case(ctx.rng)) for i in range(nb // 3)]       # default configuration
-    bbcases += [("c%d" % i, bbgen.gen_case(ctx.rng, d32=d32)) for i in range(nb - nb // 3)]   # sizes, line limits, reloads
+    bbcases += [("c%d" % i, bbgen.gen_case(ctx.rng, d32=d32, d33=d33)) for i in range(nb - nb // 3)]   # sizes, line limits, reloads
     bb_stream(bbcases, "blackbox")
     if ctx.violations or ctx.broken:
         return
